@@ -341,3 +341,51 @@ Section RDKitOpt.
     end.
 End RDKitOpt.
 Arguments its_to_rsmi_s_opt [str] rd_write eh J.
+
+(** ** attribute selections of rsmi_to_graph / smiles_to_graph / MolToGraph(node_attrs, edge_attrs)
+    MolToGraph computes the same atoms and bonds whatever the selection; node_attrs / edge_attrs only decide which
+    attributes are STORED ({k: v for k, v in props.items() if k in node_attrs}: a set test, order and repetitions do not
+    matter).  The observable prints a selected attribute as [x] and an unselected one as []. *)
+Record asel := AS { p_el : bool; p_ar : bool; p_hc : bool; p_ch : bool; p_nb : bool; p_am : bool }.
+Definition all_sel : asel := AS true true true true true true.
+Definition tsel {X} (b : bool) (f : X -> tok) (x : X) : tok := if b then L [f x] else L [].
+Definition tgnode_sel (s : asel) (p : N * gnode) : tok :=
+  let a := snd p in
+  L [tN (fst p); tsel (p_el s) tN (g_el a); tsel (p_ar s) tbool (g_arom a); tsel (p_hc s) tZ (g_hc a);
+     tsel (p_ch s) tZ (g_ch a); tsel (p_nb s) (topt (tlist tN)) (g_nb a); tsel (p_am s) tZ (g_amap a)].
+Definition tgedge_sel (eo : bool) (e : N * N * Z) : tok :=
+  let '(u, v, o) := e in L [tN (N.min u v); tN (N.max u v); tsel eo tZ o].
+Definition tmgraph_sel (s : asel) (eo : bool) (g : mgraph) : tok :=
+  L [tset (tgnode_sel s) (gnodes g); tset (tgedge_sel eo) (gedges g)].
+
+(** rsmi_to_graph(rsmi, drop_non_aam, sanitize=True, use_index_as_atom_map, node_attrs, edge_attrs): (None, None) when a
+    side cannot be converted (the ValueError of MolToGraph is swallowed by smiles_to_graph) *)
+Definition run_r2g (drop use : bool) (s : asel) (eo : bool) (mr mp : rmol) : tok :=
+  L [topt (tmgraph_sel s eo) (mol_to_graph drop use mr); topt (tmgraph_sel s eo) (mol_to_graph drop use mp)].
+
+(** ** graph_to_rsmi(r, p, its=None, explicit_hydrogen=False): the ITS is built from r and p themselves *)
+Definition graph_to_rsmi_graphs (g h : mgraph) (oJ : option its) : mgraph * mgraph :=
+  let J := match oJ with Some J => J | None => its_construct g h end in
+  (smi_graph g (hlist J), smi_graph h (hlist J)).
+
+(** ** GraphToMol.graph_to_mol(graph, ignore_bond_order, sanitize, use_h_count): without use_h_count no explicit-H count is
+    set (reported as -1) and RDKit is left to add implicit hydrogens; ignore_bond_order makes every bond SINGLE *)
+Definition graph_to_wmol_o (ibo uhc : bool) (g : mgraph) : option wmol :=
+  match graph_to_wmol g with
+  | Some (ats, bs) =>
+      Some (map (fun a => WA (w_el a) (w_ch a) (w_map a) (if uhc then w_hs a else -1)) ats,
+            map (fun b : nat * nat * N => let '(i, j, c) := b in (i, j, if ibo then 1%N else c)) bs)
+  | None => None
+  end.
+
+Definition run_g2m (ibo uhc : bool) (g : mgraph) : tok := topt twmol (graph_to_wmol_o ibo uhc g).
+
+(** graph_to_rsmi with and without the ITS argument, on the graphs of rsmi_to_graph *)
+Definition run_g2r (mr mp : rmol) : tok :=
+  match rsmi_to_graph_m mr mp with
+  | None => L []
+  | Some (g, h) =>
+      let a := graph_to_rsmi_graphs g h None in
+      let b := graph_to_rsmi_graphs g h (Some (its_construct g h)) in
+      L [tmgraph (fst a); tmgraph (snd a); tmgraph (fst b); tmgraph (snd b)]
+  end.
